@@ -722,7 +722,7 @@ class Combiner(Node):
                 #update occupancy
                 self._update_worker_occupancy(action="ADD")
                 self.stats["processing_delay"].append(next_processing_time)  # Update the processing delay in stats
-                print(f"T={self.env.now:.2f}: {self.id} worker started processing item {self.item_in_process.id} ")
+                print(f"T={self.env.now:.2f}: {self.id} worker started processing pallet {self.pallet_in_process.id} ")
                 # packing happens here, before the worker process exists: no thread is registered
                 # yet, so the thread-count based update would charge this period to IDLE_STATE
                 self.update_state("PROCESSING_STATE", self.env.now)
